@@ -61,6 +61,7 @@ class Trainer:
         self.TRIM_ESS = TRIM_ESS
         self.TRIM_BINS = TRIM_BINS
         self.DOF_FALLBACK = DOF_FALLBACK
+        self._clusterer_fitted = False
 
     def run(self, weights: np.ndarray) -> ModeStatistics:
         """
@@ -94,17 +95,24 @@ class Trainer:
             np.arange(len(weights)), weights, ess=self.TRIM_ESS, bins=self.TRIM_BINS
         )
 
-        if self.clustering and (iter_val % self.cluster_every == 0 or iter_val == 0):
+        # The clustering model must be fitted before it can predict: the first annealing
+        # iteration (also after a resume) need not be a multiple of cluster_every.
+        refit = (
+            iter_val % self.cluster_every == 0
+            or iter_val == 0
+            or not self._clusterer_fitted
+        )
+
+        if self.clustering and refit:
             # Fit clustering model and mode statistics
             u = self.state.get_history("u", flat=True)[trim_idx]
             self.clusterer.fit(u, weights_trimmed)
+            self._clusterer_fitted = True
             labels = self.clusterer.predict(u)
             mode_stats = ModeStatistics.from_particles(
                 u, weights_trimmed, labels, dof_fallback=self.DOF_FALLBACK
             )
-        elif self.clustering and not (
-            iter_val % self.cluster_every == 0 or iter_val == 0
-        ):
+        elif self.clustering and not refit:
             # Use previous clustering - return existing mode_stats
             # This requires the caller to keep track of previous mode_stats
             # For now, refit (inefficient but correct)
